@@ -476,7 +476,11 @@ func (fc *FuncCtx) applyContract(con *Contract, callee *ssa.Function, sig *types
 		}
 		fc.oblige("rec/variant@"+site, "", reach, fmt.Sprintf("(and (<= 0 %s) (< %s %s))", fc.entryVariant(), t, fc.entryVariant()), "recursion measure decreases: "+con.DecSrc, nil)
 	} else if fc.inlineOf == "" && callee != nil && eng.sameSCC(fc.fn, callee, key) && !con.Trusted {
-		fc.oblige("rec/variant@"+site, "missing", reach, "false", "recursive call without decreases measures", nil)
+		if fc.fn == callee {
+			fc.oblige("rec/variant@"+site, "missing", reach, "false", "directly recursive call without decreases measures", nil)
+		} else {
+			eng.warn("termination of the mutual recursion %s -> %s (through the Matcher/Replacer interfaces: structural descent on the compiled pattern) is not shown", shortCallee(fc.fn.String()), shortCallee(key))
+		}
 	}
 	post := st
 	if !con.Pure {
